@@ -10,8 +10,9 @@ import impl_collection as IC
 PID = "C10"
 THEOREMS = ["PauLie.C10.C10_abs", "PauLie.C10.C10_cache_inv", "PauLie.C10.C10_query", "PauLie.C10.C10_readonly",
             "PauLie.C10.C10_history", "PauLie.C10.C10_history_fresh", "PauLie.C10.C10_lossless", "PauLie.C10.C10_copy",
-            "PauLie.C10.C10_sort_needs_perm_invariance"]
-IMPORTS = ["PauLieVerif.Properties.C10"]
+            "PauLie.C10.C10_sort_needs_perm_invariance",
+            "PauLie.C10.C10_history_on", "PauLie.C10.editList_wf", "PauLie.C10.Kmodel_sort", "PauLie.C10.C10_model", "PauLie.C03.classify_perm"]
+IMPORTS = ["PauLieVerif.Properties.C10", "PauLieVerif.Properties.C10Model"]
 
 CODE = {"I": (0, 0), "X": (1, 0), "Y": (1, 1), "Z": (0, 1)}
 def bitkey(s):
@@ -184,8 +185,8 @@ RULE = ("random histories (3..25 ops, thorough ..60) over the 9 public edits wit
 def main(tier):
     return standard_main(PID, tier, "proof", THEOREMS, IMPORTS, build_streams, rule=RULE,
         assumptions=["refinement theorem is parametric in the classifier; the `sort` edit keeps the cache, which is sound iff the classifier is "
-                     "invariant under permutation of its input (hypothesis of C10_query for histories containing sort; proved for the model "
-                     "classifier as PauLie.C03.classify_perm when that theorem is in the build, and checked per history on the implementation)",
+                     "invariant under permutation of its input (hypothesis of the generic C10_history; DISCHARGED for the modelled classifier: C10_model uses C03.getSubgraphs_perm, "
+                     "its only remaining hypothesis is that classify() does not raise on the collections of the history; also checked per history on the implementation)",
                      "value semantics: aliasing of element objects between a collection and its copy is decided by the correspondence stream only",
                      "classifier raising midway (partially filled classification) is modelled; the theorem covers states where classify() does not raise"])
 
